@@ -304,3 +304,22 @@ where
     | f :: fs => Field.plains f ++ plainsList fs
 
 end AM.Config
+
+namespace AM.Config
+
+/-! ### printing (`Config.String()`) and loading it back, routing tree only -/
+
+/-- what `yaml.Marshal` keeps of one route: `group_by` is tagged `omitempty`, so an
+    explicit empty list is not written and reads back as "absent" -/
+def printNode (n : Node) : Node :=
+  if n.groupBy = some [] then { n with groupBy := none } else n
+
+/-- `Load (String c)` on the routing tree -/
+def printLoad : Route → Route
+  | .mk n cs => .mk (printNode n) (printLoadList cs)
+where
+  printLoadList : List Route → List Route
+    | [] => []
+    | r :: rs => printLoad r :: printLoadList rs
+
+end AM.Config
